@@ -121,6 +121,8 @@ pub fn translate(src: &str, opts: &Options) -> Res<String> {
         state: vec![],
         deferred_tys: BTreeMap::new(),
         tuple_state: false,
+        mut_params: vec![],
+        loop_ctx: None,
     };
     // the inherent impl blocks of each type
     let mut methods: BTreeMap<String, Vec<&syn::ImplItemFn>> = BTreeMap::new();
